@@ -143,3 +143,53 @@ theorem foldl_tile (boxes : List Box) :
     exact ih _ a _ e h1 h2 hb.2 (fun x hx => hk x (List.mem_cons_of_mem _ hx))
 
 end DashLive.Indexing
+
+namespace DashLive.Indexing
+
+theorem foldl_loadStep_durs (dflt : Nat) (frags : List Frag) (s : LoadSt) :
+    (frags.foldl (loadStep dflt) s).durs = s.durs ++ frags.map (fragDur dflt) := by
+  induction frags generalizing s with
+  | nil => simp
+  | cons f fs ih => simp [List.foldl_cons, ih, loadStep]
+
+theorem foldl_loadStep_startNumber (dflt : Nat) (frags : List Frag) (s : LoadSt) (k : Nat)
+    (h : s.startNumber = some k) : (frags.foldl (loadStep dflt) s).startNumber = some k := by
+  induction frags generalizing s with
+  | nil => simpa
+  | cons f fs ih => simp only [List.foldl_cons]; apply ih; simp [loadStep, h]
+
+theorem foldl_loadStep_repStart (dflt : Nat) (frags : List Frag) (s : LoadSt) (k : Nat)
+    (h : s.repStart = some k) : (frags.foldl (loadStep dflt) s).repStart = some k := by
+  induction frags generalizing s with
+  | nil => simpa
+  | cons f fs ih => simp only [List.foldl_cons]; apply ih; simp [loadStep, h]
+
+/-- a file whose `tfdt` boxes are consistent with its sample durations: fragment `k`
+carries `t0 + Σ_{i<k} dur_i` -/
+def ConsistentFrom (dflt : Nat) : Nat → List Frag → Prop
+  | _, [] => True
+  | t, f :: fs => f.tfdt = some t ∧ ConsistentFrom dflt (t + fragDur dflt f) fs
+
+/-- for a consistent file the loop's `segment_start_time` after the last fragment is the
+decode time of that fragment, and `segment_end_time` is the end of the media -/
+theorem foldl_loadStep_consistent (dflt : Nat) :
+    ∀ (frags : List Frag) (s : LoadSt) (t : Nat), frags ≠ [] → ConsistentFrom dflt t frags →
+      (frags.foldl (loadStep dflt) s).segStart
+        = t + ((frags.dropLast).map (fragDur dflt)).sum ∧
+      (frags.foldl (loadStep dflt) s).segEnd = t + (frags.map (fragDur dflt)).sum := by
+  intro frags
+  induction frags with
+  | nil => intro s t h; exact absurd rfl h
+  | cons f fs ih =>
+    intro s t _ hc
+    simp only [ConsistentFrom] at hc
+    simp only [List.foldl_cons]
+    cases fs with
+    | nil => simp [loadStep, hc.1]
+    | cons g gs =>
+      obtain ⟨h1, h2⟩ := ih (loadStep dflt s f) (t + fragDur dflt f) (by simp) hc.2
+      rw [h1, h2]
+      simp only [List.dropLast_cons_cons, List.map_cons, List.sum_cons]
+      omega
+
+end DashLive.Indexing
